@@ -5,7 +5,11 @@ import logging
 
 import priv
 
-logging.disable(logging.CRITICAL)   # the receiver logs every injected handler failure with a traceback
+# The library's log calls are left enabled down to DEBUG - as in a default installation - so that whatever hangs on
+# them (filters, eager formatting) runs; the records go to a handler that discards them.
+logging.getLogger().addHandler(logging.NullHandler())
+logging.getLogger().setLevel(logging.DEBUG)
+logging.getLogger("asyncio").setLevel(logging.WARNING)
 
 from common import hx
 
